@@ -229,6 +229,16 @@ let run_service () =
               (match acc with cur :: r -> (bytes_of_xhex (String.sub t 2 (String.length t - 2)) :: cur) :: r | [] -> acc)
             else acc) [] rest in
         print_endline "LIFECYCLES"; List.iter print_eframe (lifecycles g (List.rev_map List.rev runs))
+      | "DUPLEX" :: rest ->
+        let kv = kv_of rest in
+        let g = { g_spawn = id_of (getk "spawn" kv); g_ctx = id_of (getk "ctx" kv); g_name = bytes_of_xhex (getk "name" kv) } in
+        let rec frames = function
+          | "S" :: id :: ctx :: topic :: content :: r ->
+            ({ sf_id = id_of id; sf_ctx = id_of ctx; sf_topic = bytes_of_xhex topic; sf_hid = None },
+             (if content = "-" then [] else bytes_of_xhex content)) :: frames r
+          | _ :: r -> frames r | [] -> [] in
+        let fed = instance_input g (id_of (getk "start" kv)) (id_of (getk "stop" kv)) (frames rest) in
+        print_endline (String.concat " " ("INPUT" :: List.map xhex_of_bytes fed))
       | ["EV"; "define"; id; ctx; name; valid] ->
         let f = { sf_id = id_of id; sf_ctx = id_of ctx; sf_topic = []; sf_hid = None } in
         let (t', a) = cserve_step !table (EDefine (f, bytes_of_xhex name, valid = "1")) in
